@@ -119,6 +119,9 @@ func (o *netOracle) run() []OracleFailure {
 					}
 				}
 			}
+			if p.Src != self && p.Dst != self && p.Relay != self {
+				o.fail("C13:uninvolved-chain-accepted", "receive accepted on a chain that is neither source, destination nor relay chain of the presented packet (relay field removed on the relay hop?)", d, idx)
+			}
 			if !matchLoose {
 				o.fail("C01:unauthentic-recv", "receive accepted although the proving chain never committed a packet with this source, destination, sequence and data", d, idx)
 			} else if !match {
@@ -169,6 +172,18 @@ func (o *netOracle) run() []OracleFailure {
 				if q.Src == p.Src && q.Dst == p.Dst && q.Seq == p.Seq && q.Data == p.Data {
 					held = true
 				}
+			}
+			if p.Src != self && p.Dst != self && p.Relay != self {
+				o.fail("C13:uninvolved-chain-accepted", "acknowledgement accepted on a chain that is neither source, destination nor relay chain of the presented packet", d, idx)
+			}
+			heldExact := false
+			for _, q := range o.sent[c] {
+				if q == p {
+					heldExact = true
+				}
+			}
+			if held && !heldExact {
+				o.fail("C13:port-or-relay-edited", "acknowledgement accepted for a committed packet whose port and/or relay chain field was altered", d, idx)
 			}
 			if !held {
 				o.fail("C03:ack-without-commitment", "acknowledgement accepted for a packet this chain never committed", d, idx)
